@@ -77,7 +77,7 @@ def run_on_steploop(coro_factory, *a):
 
 
 async def drive(loop, cfg, ops, manual):
-    """cfg = {"protos": [[rank, has_push, has_keyboard], ...]}; returns per-op [result, deliveries]."""
+    """cfg = {"protos": [[rank, has_push, has_keyboard(, stop_raises)], ...]}; returns per-op [result, deliveries]."""
     from pyatv import conf, const, exceptions, interface
     from pyatv.const import KeyboardFocusState, Protocol
     from pyatv.core import (AbstractPushUpdater, ProtocolStateDispatcher, SetupData, UpdatedState,
@@ -109,6 +109,7 @@ async def drive(loop, cfg, ops, manual):
 
         def __init__(self, disp):
             super().__init__(Meta(), Psm(), disp)
+            self.stop_raises = False
 
         @property
         def active(self):
@@ -118,7 +119,8 @@ async def drive(loop, cfg, ops, manual):
             pass
 
         def stop(self):
-            pass
+            if self.stop_raises:      # fault while tearing this protocol down
+                raise ConnectionResetError("connection to device lost")
 
     class Kbd(interface.Keyboard):
         pass
@@ -172,7 +174,9 @@ async def drive(loop, cfg, ops, manual):
         disps[rank] = ProtocolStateDispatcher(proto, core)
         upds[rank] = Upd(disps[rank])          # every protocol has an updater object ...
         rank_of[id(upds[rank])] = rank
-    for rank, has_push, has_kbd in cfg["protos"]:
+    for entry in cfg["protos"]:
+        rank, has_push, has_kbd = entry[:3]
+        upds[rank].stop_raises = bool(entry[3]) if len(entry) > 3 else False
         proto = getattr(Protocol, PRIORITY[rank])
         config.add_service(conf.ManualService("id%d" % rank, proto, 0, {}))
         ifaces = {}
@@ -255,14 +259,19 @@ def run_case(cfg, ops, manual):
 def oracle(cfg, ops, outs):
     """Judge the property on what the user listeners received."""
     errs = []
-    regs = [r for r, p, k in cfg["protos"] if p]
-    kregs = [r for r, p, k in cfg["protos"] if k]
+    regs = [e[0] for e in cfg["protos"] if e[1]]
+    kregs = [e[0] for e in cfg["protos"] if e[2]]
+    faulty = any(e[1] and len(e) > 3 and e[3] for e in cfg["protos"])    # some registered updater's stop() raises
+    stepped = any(op[0] == "Run1" for op in ops)
+    owed = []                 # updates / errors of a started facade that the next drain must deliver if their protocol is active
     last_post = {}
     changed = []              # (index of op, rank, status) that differ from the updater's previous status
+    changed_at = set()
     for j, op in enumerate(ops):
         if op[0] == "Post":
             if last_post.get(op[1]) != op[2]:
                 changed.append((op[1], op[2]))
+                changed_at.add(j)
             last_post[op[1]] = op[2]
     plays = [(d[1], d[2]) for _, ds in outs for d in ds if d[0] == "DPlay"]
     # only on change + in order: the delivered sequence is a subsequence of the changed posts
@@ -278,13 +287,19 @@ def oracle(cfg, ops, outs):
     for j, op in enumerate(ops):
         res, ds = outs[j]
         k = op[0]
-        if res.startswith("raise"):
+        if res.startswith("raise") and not (faulty and k in ("Stop", "Close")):
             errs.append(("C10:op:unexpected-exception", "%r -> %s" % (op, res)))
         if k == "Start" and not closed:
             started = True
         elif k in ("Stop", "Close"):
+            # whether it returned or raised: nothing more may be delivered
             started = False
-            closed = closed or k == "Close"
+            owed = []
+            closed = closed or (k == "Close" and res == "ok")
+        elif k == "Post" and started and j in changed_at:
+            owed.append(["DPlay", op[1], op[2]])
+        elif k == "Err" and started:
+            owed.append(["DErr", op[1]])
         elif k == "Take" and res == "ok":
             for w in op[2]:
                 take[w] = op[1]
@@ -300,6 +315,15 @@ def oracle(cfg, ops, outs):
             if kmain == op[1]:
                 fq.append(op[2])
         main = take["push"] if take["push"] in regs else (min(regs) if regs else None)
+        if k == "RunAll" and not stepped:
+            # produced while started, nobody stopped since, its protocol serves metadata now (the holder of
+            # the takeover if it has an updater, otherwise the highest-priority one): it must arrive
+            must = [d for d in owed if d[1] == main]
+            it = iter([d for d in ds if d[0] in ("DPlay", "DErr")])
+            if not all(any(x == y for y in it) for x in must):
+                errs.append(("C10:active:update-of-active-protocol-lost",
+                             "op %d %r delivered %r, but %r were produced by the active protocol %s while started" % (j, op, ds, must, main)))
+            owed = []
         for d in ds:
             if d[0] in ("DPlay", "DErr"):
                 if not started:
@@ -355,8 +379,9 @@ def oracle(cfg, ops, outs):
 # ------------------------------------------------------------------ Coq terms
 
 def c_cfg(cfg):
-    return "{| regs := %s; kregs := %s |}" % (
-        common.clist([r for r, p, k in cfg["protos"] if p]), common.clist([r for r, p, k in cfg["protos"] if k]))
+    return "{| regs := %s; kregs := %s; sraise := %s |}" % (
+        common.clist([e[0] for e in cfg["protos"] if e[1]]), common.clist([e[0] for e in cfg["protos"] if e[2]]),
+        common.clist([e[0] for e in cfg["protos"] if len(e) > 3 and e[3]]))
 
 
 def c_op(op):
@@ -391,7 +416,7 @@ def c_case(cfg, ops, outs):
 def rand_cfg(rng):
     n = rng.choice([1, 2, 2, 3, 3])
     ranks = rng.sample(range(5), n)
-    protos = [[r, rng.random() < 0.8, rng.random() < 0.6] for r in ranks]
+    protos = [[r, rng.random() < 0.8, rng.random() < 0.6, rng.random() < 0.15] for r in ranks]
     if not any(p[1] for p in protos):
         protos[0][1] = True
     return {"protos": protos}
@@ -436,6 +461,8 @@ EXH_CFGS = [
     {"protos": [[0, True, True]]},
     {"protos": [[1, True, False], [0, True, True]]},
     {"protos": [[3, True, True], [1, True, True], [2, False, True]]},
+    # the updater that is stopped first fails in stop(); the main protocol's comes after it
+    {"protos": [[1, True, False, True], [0, True, True, False]]},
 ]
 
 
@@ -445,10 +472,10 @@ def run(ctx):
         ctx.coqchk()
     maxlen = 5 if ctx.thorough else 4
     nrand = 30000 if ctx.thorough else 2500
-    exh_cfgs = EXH_CFGS if ctx.thorough else EXH_CFGS[1:]
+    exh_cfgs = EXH_CFGS if ctx.thorough else EXH_CFGS[2:]
     ctx.rule = ("(a) corpus; (b) for %d fixed configurations (1..3 protocols) EVERY op sequence of length <= %d over "
-                "{post(highest-priority proto, s0), post(same, s1), post(lowest-priority proto, s0), start, stop, takeover(lowest, push), "
-                "release, run-all}, as such on the real loop, and preceded by start on the real loop and on the stepped loop; "
+                "{post(highest-priority proto, s0), post(same, s1), post(lowest-priority proto, s0), start, stop (with a configuration whose first "
+                "updater raises from stop()), takeover(lowest, push), takeover(protocol without push updater, push), release, run-all}, as such on the real loop, and preceded by start on the real loop and on the stepped loop; "
                 "(b') every sequence of length <= %d ending in run-all over {volume(hi,0), volume(hi,1), volume(lo,int 10), volume(hi,-0.0), devices x3, "
                 "focus(hi,1), focus(lo,2), keyboard takeover(lo), release, run-all} - volumes include -0.0 and int 10 (equal to 0.0 / 10.0), device lists "
                 "agree on the identifier and differ in the name (renamed, unnamed); (b'') start followed by every sequence of length <= %d ending in "
@@ -478,7 +505,10 @@ def run(ctx):
     for cfg in exh_cfgs:
         ranks = sorted(p[0] for p in cfg["protos"] if p[1])
         hi, lo = ranks[0], ranks[-1]
-        alpha = [["Post", hi, 0], ["Post", hi, 1], ["Post", lo, 0], ["Start"], ["Stop"], ["Take", lo, ["push"]], ["Rel", ["push"]], ["RunAll"]]
+        # a protocol WITHOUT a push updater (connected without one, or not connected at all) that takes over
+        nopush = ([e[0] for e in cfg["protos"] if not e[1]] + [r for r in range(4, -1, -1) if r not in [e[0] for e in cfg["protos"]]])[0]
+        alpha = [["Post", hi, 0], ["Post", hi, 1], ["Post", lo, 0], ["Start"], ["Stop"], ["Take", lo, ["push"]], ["Take", nopush, ["push"]],
+                 ["Rel", ["push"]], ["RunAll"]]
         for length in range(1, maxlen + 1):
             for seq in itertools.product(alpha, repeat=length):
                 if not any(o[0] == "RunAll" for o in seq):
